@@ -1,0 +1,235 @@
+//! Scheduler-internal part of the `verif` façade (see `crate::verif::api`).
+//!
+//! Every wrapper *calls* the production component; none re-implements it.
+
+use super::{
+    Scheduler,
+    context::SchedulerContext,
+    cursor::{PublishedCursorReader, RewindableCursor},
+    wait::WaitSlot,
+};
+use crate::tx_dependency::TxDependency;
+use revm::DatabaseRef;
+use std::{
+    sync::atomic::{AtomicUsize, Ordering},
+    time::Duration,
+};
+
+/// The production validation/finality/commit cursors, execution frontier and logical clock.
+pub struct Cursors(SchedulerContext);
+
+impl std::fmt::Debug for Cursors {
+    fn fmt(&self, f: &mut std::fmt::Formatter<'_>) -> std::fmt::Result {
+        f.debug_struct("Cursors").finish_non_exhaustive()
+    }
+}
+
+#[allow(missing_docs)]
+impl Cursors {
+    pub fn new(num_txs: usize) -> Self {
+        Self(SchedulerContext::new(num_txs))
+    }
+    /// `next_validation_idx(executing_idx)`: claim below `min(executing_idx, frontier)`.
+    pub fn claim(&self, executing_idx: usize) -> Option<usize> {
+        self.0.next_validation_idx(executing_idx)
+    }
+    pub fn rewind(&self, index: usize) {
+        self.0.rewind_validation_to(index)
+    }
+    pub fn executed(&self, index: usize) {
+        self.0.executed(index)
+    }
+    pub fn frontier(&self) -> usize {
+        self.0.execution_frontier()
+    }
+    pub fn validation_idx(&self) -> usize {
+        self.0.validation_idx()
+    }
+    pub fn logical_timestamp(&self) -> usize {
+        self.0.logical_timestamp()
+    }
+    pub fn unconfirmed(&self, index: usize, timestamp: usize) {
+        self.0.unconfirmed(index, timestamp)
+    }
+    pub fn lower_timestamp(&self, index: usize) -> usize {
+        self.0.lower_timestamp(index)
+    }
+    pub fn unconfirmed_timestamp(&self, index: usize) -> usize {
+        self.0.unconfirmed_timestamp(index)
+    }
+    pub fn should_schedule(&self, executing_idx: usize) -> bool {
+        self.0.should_schedule(executing_idx)
+    }
+}
+
+/// The bare production rewindable cursor (claim/rewind only, explicit limit).
+#[derive(Debug)]
+pub struct RawCursor(RewindableCursor);
+
+#[allow(missing_docs)]
+impl RawCursor {
+    pub fn new(value: usize) -> Self {
+        Self(RewindableCursor::new(value))
+    }
+    pub fn claim_before(&self, limit: usize) -> Option<usize> {
+        self.0.claim_before(limit)
+    }
+    pub fn rewind(&self, value: usize) -> usize {
+        self.0.rewind(value)
+    }
+    pub fn get(&self) -> usize {
+        self.0.get()
+    }
+}
+
+/// The production dependency graph plus a committed cursor the driver publishes itself.
+pub struct Deps {
+    deps: TxDependency,
+    committed: AtomicUsize,
+}
+
+impl std::fmt::Debug for Deps {
+    fn fmt(&self, f: &mut std::fmt::Formatter<'_>) -> std::fmt::Result {
+        f.debug_struct("Deps").finish_non_exhaustive()
+    }
+}
+
+#[allow(missing_docs)]
+impl Deps {
+    pub fn new(num_txs: usize) -> Self {
+        Self { deps: TxDependency::new(num_txs), committed: AtomicUsize::new(0) }
+    }
+    pub fn next(&self) -> Option<usize> {
+        self.deps.next()
+    }
+    pub fn index(&self) -> usize {
+        self.deps.index()
+    }
+    pub fn remove(&self, txid: usize, pop_next: bool) -> Option<usize> {
+        self.deps.remove(txid, pop_next)
+    }
+    /// Same ordering as the commit loop: publish the boundary (Release), then release.
+    pub fn publish_commit(&self, next_commit_idx: usize) {
+        self.committed.store(next_commit_idx, Ordering::Release);
+    }
+    pub fn commit(&self, txid: usize) {
+        self.deps.commit(txid)
+    }
+    pub fn committed_idx(&self) -> usize {
+        self.committed.load(Ordering::Acquire)
+    }
+    pub fn key_tx(&self, txid: usize) {
+        self.deps.key_tx(txid, PublishedCursorReader::verif_new(&self.committed))
+    }
+    pub fn add(&self, txid: usize, dep: Option<usize>) {
+        self.deps.add(txid, dep)
+    }
+    #[allow(clippy::type_complexity)]
+    pub fn dump(&self) -> (Vec<Option<(bool, Option<usize>)>>, Vec<Option<Vec<usize>>>) {
+        self.deps.verif_dump()
+    }
+}
+
+/// The production single-consumer notification slot.
+#[derive(Debug)]
+pub struct Slot(WaitSlot);
+
+#[allow(missing_docs)]
+impl Slot {
+    pub fn new() -> Self {
+        Self(WaitSlot::new())
+    }
+    pub fn id(&self) -> usize {
+        &self.0 as *const WaitSlot as usize
+    }
+    pub fn register_current_thread(&self) {
+        self.0.register_current_thread()
+    }
+    pub fn notify(&self) {
+        self.0.notify()
+    }
+    pub fn wait_while(&self, timeout: Duration, blocked: impl FnMut() -> bool) {
+        self.0.wait_while(timeout, blocked)
+    }
+}
+
+impl Default for Slot {
+    fn default() -> Self {
+        Self::new()
+    }
+}
+
+/// One transaction's scheduler-visible state.
+#[derive(Clone, Debug, PartialEq, Eq)]
+pub struct TxDump {
+    /// Status code (see `verif::Event::ExecTask`); `None` if the lock could not be taken.
+    pub status: Option<u8>,
+    /// Current incarnation.
+    pub incarnation: usize,
+    /// Whether a result is stored.
+    pub has_result: Option<bool>,
+}
+
+/// A snapshot of the scheduler's coordination state, each part read under its own lock.
+#[derive(Clone, Debug)]
+#[allow(missing_docs)]
+pub struct SchedulerDump {
+    pub txs: Vec<TxDump>,
+    pub dependents: Vec<Option<(bool, Option<usize>)>>,
+    pub affects: Vec<Option<Vec<usize>>>,
+    pub dep_index: usize,
+    pub validation_idx: usize,
+    pub finality_idx: usize,
+    pub committed_idx: usize,
+    pub execution_frontier: usize,
+    pub lower_ts: Vec<usize>,
+    pub unconfirmed_ts: Vec<usize>,
+    pub aborted: bool,
+}
+
+impl<DB> Scheduler<DB>
+where
+    DB: DatabaseRef + Send + Sync,
+    DB::Error: Clone + Send + Sync + 'static,
+{
+    /// Release every scheduler role (the production `cancel()`), used by the stall detector to
+    /// let a hung run finish after it has been diagnosed.
+    pub fn verif_cancel(&self) {
+        self.cancel();
+    }
+
+    /// Snapshot coordination state for the stall detector.
+    pub fn verif_dump(&self) -> SchedulerDump {
+        let timeout = Duration::from_millis(200);
+        let txs = (0..self.block_size)
+            .map(|i| {
+                let state = self.tx_states[i].try_lock_for(timeout);
+                let has_result = self.tx_results[i].try_lock_for(timeout).map(|r| r.is_some());
+                match state {
+                    Some(s) => TxDump {
+                        status: Some(crate::verif::status_code(&s.status)),
+                        incarnation: s.incarnation,
+                        has_result,
+                    },
+                    None => TxDump { status: None, incarnation: 0, has_result },
+                }
+            })
+            .collect();
+        let (dependents, affects) = self.tx_dependency.verif_dump();
+        SchedulerDump {
+            txs,
+            dependents,
+            affects,
+            dep_index: self.tx_dependency.index(),
+            validation_idx: self.scheduler_ctx.validation_idx(),
+            finality_idx: self.scheduler_ctx.finality_idx(),
+            committed_idx: self.scheduler_ctx.committed_idx(),
+            execution_frontier: self.scheduler_ctx.execution_frontier(),
+            lower_ts: (0..self.block_size).map(|i| self.scheduler_ctx.lower_timestamp(i)).collect(),
+            unconfirmed_ts: (0..self.block_size)
+                .map(|i| self.scheduler_ctx.unconfirmed_timestamp(i))
+                .collect(),
+            aborted: self.is_aborted(),
+        }
+    }
+}
